@@ -2,14 +2,16 @@ import HeimdallModel.Lemmas.SignerClaims
 import HeimdallModel.Lemmas.SignerStore
 import HeimdallModel.Lemmas.SignerConc
 import HeimdallModel.Lemmas.SignerEdges
+import HeimdallModel.Lemmas.SignerCache
 import HeimdallModel.Model.SignerProtocol
 import HeimdallModel.Gen.Signer
 /-!
 # C16 — issued JWTs verify against the published key set and carry the system claims
 
 Model: `Model/Signer.lean` (key store, `load`, `Sign`, publication; cryptography and X.509 opaque),
-`Model/SignerConc.lean` (token creation, key-set reads and reloads as a small-step machine, any number of threads).
-Specification: `Spec/Signer.lean`.  The first group of theorems ties the machine to the current source: they are stated about
+`Model/SignerConc.lean` (token creation, key-set reads and reloads as a small-step machine, any number of threads),
+`Model/SignerCache.lean` (the token cache of `Execute`, shared by the catalogue finalizer, its rule-level variants and
+every other jwt finalizer).  Specification: `Spec/Signer.lean`, `Spec/SignerCache.lean`.  The first group of theorems ties the machine to the current source: they are stated about
 `Gen/Signer.lean`, which `/verif/extract/signer` regenerates from `jwt_signer.go` on every run.
 -/
 namespace Heimdall.Props.C16
@@ -313,5 +315,300 @@ example : ∃ c0 c : Config Nat, Initial 0 c0 ∧ Reachable c0 c ∧
   have r4 := Reachable.step _ _ r3 (Step.sReadKey _ 0 (some 0) 1 (by simp [upd, c0]))
   have r5 := Reachable.step _ _ r4 (Step.sUnlock _ 0 (some 0) (some 0) 1 (by simp [upd, c0]))
   exact ⟨c0, _, hi, r5, by simp [upd], by simp [upd]⟩
+
+/-! ## The token cache of `Execute`: whatever is handed out, freshly signed or cached, is a token for this execution
+
+`World` = the signers of the process and the one cache all jwt finalizer instances share; `Exec` = one call of
+`Execute` by any finalizer instance (any TTL, claims template, header; prototype or `WithConfig` variant), through any
+signer, for any subject and outputs, at any clock readings; `Event` = an execution, a key store reload, or an execution
+during which the key store of its signer is reloaded (between `Hash` and `Sign`).  Histories are arbitrary lists of
+events.  `d` bounds the time that passes between `time.Now()` in `Sign` and the cache's clock
+reading in `Set` (`DelayBound`); nothing else is assumed about the clock. -/
+
+/-- **Every token handed out is a token for the execution that hands it out.**  After any history (started with an
+empty cache and signers loaded from key stores), whatever `Execute` hands out — fresh or from the cache — equals what
+a consistent generation `st` of the key store signs for *this* subject, *this* signer's issuer name, the TTL of the
+finalizer instance *that executes* and the claims *its* template renders for this subject and outputs, at some issue
+time; `st`'s active key has id, algorithm and public key of the generation active now; a fresh token is issued now by
+the active generation; a cached one was issued at most `ttl − leeway + d` before the lookup. -/
+theorem c16_cache_handout (render : Render α) (d : Int) (w0 : World α) (h0 : Started w0) (hist : List Event)
+    (hd : DelayBound d hist) (x : Exec) (hx : x.setNs ≤ x.signNs + d) (t : Token α) (src : Source) (w' : World α)
+    (h : execute render (run render w0 hist) x = some (t, src, w')) :
+    Handout render d (run render w0 hist) x t src := by
+  have hinv0 : CacheInv render d w0 := ⟨h0.signers, by rw [h0.empty]; intro e he; cases he⟩
+  exact (execute_spec render d _ (run_inv render d w0 hinv0 hist hd) x hx t src w' h).1
+
+/-- the claims of a handed-out token: `sub` is the id of the subject of this execution, `iss` the name of its signer,
+`nbf = iat`, `exp` is the TTL of the executing instance after `iat` (exactly for whole seconds, else within a second),
+`jti` a fresh identifier, and every other name has the value the executing instance's template renders — reserved names
+in the template change nothing -/
+theorem c16_cache_claims (render : Render α) (d : Int) (w : World α) (x : Exec) (t : Token α) (src : Source)
+    (h : Handout render d w x t src) :
+    ∃ (s : SignerRec) (custom : Claims α) (iat exp : Int),
+      w.signers[x.signer]? = some s ∧ customOf render x = some custom ∧
+      lookup "sub" t.claims = some (.str x.sub.id) ∧ lookup "iss" t.claims = some (.str s.iss) ∧
+      lookup "iat" t.claims = some (.num iat) ∧ lookup "nbf" t.claims = some (.num iat) ∧
+      lookup "exp" t.claims = some (.num exp) ∧ lookup "jti" t.claims = some .fresh ∧
+      iat + unixSec x.fin.ttlNs ≤ exp ∧ exp ≤ iat + unixSec x.fin.ttlNs + 1 ∧
+      (∀ ttlSec : Int, x.fin.ttlNs = ttlSec * 1000000000 → exp = iat + ttlSec) ∧
+      (∀ k, k ∉ reserved → lookup k t.claims = lookup k custom) := by
+  obtain ⟨s, st, issuedNs, custom, hs, _, _, hcu, ht, _⟩ := h
+  subst ht
+  have hsys := c16_system_claims st ⟨x.sub.id, s.iss, issuedNs, x.fin.ttlNs⟩ custom
+  refine ⟨s, custom, unixSec issuedNs, unixSec (issuedNs + x.fin.ttlNs), hs, hcu, hsys.1, hsys.2.1, hsys.2.2.1,
+    hsys.2.2.2.1, hsys.2.2.2.2.1, hsys.2.2.2.2.2, (c16_exp_bounds issuedNs x.fin.ttlNs).1,
+    (c16_exp_bounds issuedNs x.fin.ttlNs).2, ?_, ?_⟩
+  · intro ttlSec he
+    show unixSec (issuedNs + x.fin.ttlNs) = unixSec issuedNs + ttlSec
+    rw [he]
+    exact c16_exp_exact issuedNs ttlSec
+  · intro k hk
+    rw [c16_claims_spec]
+    have : reservedSrc k = none := by
+      simp only [reserved, List.mem_cons, List.not_mem_nil, or_false, not_or] at hk
+      simp [reservedSrc, hk]
+    simp [specClaim, this]
+
+/-- a handed-out token is not expired: if storing follows signing within the leeway minus one second (`d ≤ 4 s`),
+the lookup does not go back in time before the signing of the same call, and the TTL is at least a second (the
+configuration demands more), then at the moment of the lookup the token's `exp` lies in the future — for fresh and
+for cached tokens alike.  A cached token was issued at most `ttl − leeway + d` ago. -/
+theorem c16_cache_not_expired (render : Render α) (d : Int) (w : World α) (x : Exec) (t : Token α) (src : Source)
+    (h : Handout render d w x t src) (hd : d + 1000000000 ≤ leewayNs) (hmono : x.getNs ≤ x.signNs)
+    (httl : 1000000000 ≤ x.fin.ttlNs) :
+    ∃ issuedNs : Int, lookup "iat" t.claims = some (.num (unixSec issuedNs)) ∧
+      lookup "exp" t.claims = some (.num (unixSec (issuedNs + x.fin.ttlNs))) ∧
+      unixSec x.getNs < unixSec (issuedNs + x.fin.ttlNs) ∧
+      (src = .cached → x.getNs - issuedNs ≤ x.fin.ttlNs - leewayNs + d) := by
+  obtain ⟨s, st, issuedNs, custom, _, _, _, _, ht, _, _, _, hf, hc⟩ := h
+  subst ht
+  have hsys := c16_system_claims st ⟨x.sub.id, s.iss, issuedNs, x.fin.ttlNs⟩ custom
+  refine ⟨issuedNs, hsys.2.2.1, hsys.2.2.2.2.1, ?_, ?_⟩
+  · cases src with
+    | fresh =>
+      obtain ⟨_, hi⟩ := hf rfl
+      subst hi
+      unfold unixSec; omega
+    | cached =>
+      obtain ⟨hb, _⟩ := hc rfl
+      unfold unixSec; unfold leewayNs at hd hb; omega
+  · intro hs
+    obtain ⟨hb, _⟩ := hc hs
+    omega
+
+/-- a handed-out token names id and algorithm of the key that is active **now** and is signed by a key with that
+key's public half — although a cached token was signed by the generation active when it was issued.  (The signer hash
+— key id, algorithm, issuer, thumbprint — is part of the cache key.) -/
+theorem c16_cache_token_names_current_key (render : Render α) (d : Int) (w : World α) (x : Exec) (t : Token α)
+    (src : Source) (h : Handout render d w x t src) :
+    ∃ s, w.signers[x.signer]? = some s ∧ t.typ = "JWT" ∧ t.kid = s.st.jwk.kid ∧ t.alg = s.st.jwk.alg ∧
+      t.signedBy.pub = s.st.key.pub := by
+  obtain ⟨s, st, issuedNs, custom, hs, hcs, hc, _, ht, h1, h2, h3, _, _⟩ := h
+  subst ht
+  refine ⟨s, hs, rfl, h1, h2, ?_⟩
+  show st.key.pub = s.st.key.pub
+  rw [← hc.pair, h3, hcs.pair]
+
+/-- a handed-out token verifies against the key list its signer publishes now (first key with the token's id, as
+go-jose verifies against a JWK set) and is verified by some key of the set the endpoint publishes for all signers -/
+theorem c16_cache_token_verifies_now (render : Render α) (d : Int) (w : World α) (x : Exec) (t : Token α)
+    (src : Source) (h : Handout render d w x t src) :
+    ∃ s, w.signers[x.signer]? = some s ∧ verifiesFirst s.st.pubKeys t = true ∧
+      verifiesAny (published (w.signers.map (·.st))) t = true := by
+  obtain ⟨s, hs, _, hk, ha, hp⟩ := c16_cache_token_names_current_key render d w x t src h
+  obtain ⟨s', _, _, _, hs', hcs, _⟩ := h
+  rw [hs] at hs'
+  cases hs'
+  have hown : verifiesWith s.st.jwk t = true := by
+    simp [verifiesWith, hk, ha, hp, hcs.pair]
+  refine ⟨s, hs, ?_, ?_⟩
+  · unfold verifiesFirst
+    rw [hk, find_of_nodup (·.kid) s.st.pubKeys s.st.jwk hcs.kids_unique hcs.active_published]
+    exact hown
+  · apply verifiesAny_of_mem _ s.st.jwk _ _ hown
+    exact List.mem_flatMap.mpr ⟨s.st, List.mem_map.mpr ⟨s, List.mem_of_getElem? hs, rfl⟩, hcs.active_published⟩
+
+/-- **Across a key reload.**  Whatever the history contains — reloads to other keys, to the same key, failed reloads,
+reloads back to an earlier store —, a token that names another key id or algorithm than the key active now, or that
+was signed by a key with another public half, is not handed out: tokens issued under a replaced key leave circulation
+with the reload (they stay in the cache unreachable until they expire; if a later reload makes their key active again
+they are served again, and rightly so by this very theorem). -/
+theorem c16_cache_reload_retires_tokens (render : Render α) (d : Int) (w0 : World α) (h0 : Started w0)
+    (hist : List Event) (hd : DelayBound d hist) (x : Exec) (hx : x.setNs ≤ x.signNs + d) (t : Token α) (src : Source)
+    (w' : World α) (h : execute render (run render w0 hist) x = some (t, src, w')) (s : SignerRec)
+    (hs : (run render w0 hist).signers[x.signer]? = some s) (old : Token α)
+    (hold : old.kid ≠ s.st.jwk.kid ∨ old.alg ≠ s.st.jwk.alg ∨ old.signedBy.pub ≠ s.st.key.pub) : t ≠ old := by
+  obtain ⟨s', hs', _, hk, ha, hp⟩ := c16_cache_token_names_current_key render d _ x t src
+    (c16_cache_handout render d w0 h0 hist hd x hx t src w' h)
+  rw [hs] at hs'
+  cases hs'
+  intro e
+  subst e
+  rcases hold with h1 | h1 | h1
+  · exact h1 hk
+  · exact h1 ha
+  · exact h1 hp
+
+/-- the cache is used: an execution that stored its token (TTL above the leeway) is answered from the cache with that
+very token when it is repeated — same instance configuration, signer, subject, outputs — no later than `ttl − leeway`
+after the entry was stored -/
+theorem c16_cache_repeat_is_served (render : Render α) (w : World α) (x y : Exec) (t : Token α) (w' : World α)
+    (h : execute render w x = some (t, .fresh, w')) (hl : leewayNs < x.fin.ttlNs)
+    (hy : y.signer = x.signer ∧ y.fin = x.fin ∧ y.sub = x.sub ∧ y.outputs = x.outputs)
+    (hat : y.getNs ≤ x.setNs + (x.fin.ttlNs - leewayNs)) :
+    execute render w' y = some (t, .cached, w') := by
+  unfold execute executeK at h ⊢
+  cases hs : w.signers[x.signer]? with
+  | none => simp [hs] at h
+  | some s =>
+    simp only [hs, id] at h
+    cases hg : w.cache.get (keyOf s x) x.getNs with
+    | some t0 => simp [hg] at h
+    | none =>
+      simp only [hg] at h
+      cases hcu : customOf render x with
+      | none => simp [hcu] at h
+      | some custom =>
+        simp only [hcu, Option.some.injEq, Prod.mk.injEq, true_and, if_pos hl] at h
+        obtain ⟨ht, hw⟩ := h
+        subst hw
+        have hk : keyOf s y = keyOf s x := by
+          simp [keyOf, hy.2.1, hy.2.2.1, hy.2.2.2]
+        have hpos : 0 < x.fin.ttlNs - leewayNs := by omega
+        simp only [hy.1, hs, id, hk, Cache.get_set _ _ _ _ _ _ _ hpos, if_true, if_pos hat, ht]
+
+/-! ### witnesses: a prototype and its rule-level variant, two subjects, reloads -/
+
+def noRender : Render Nat := fun _ _ _ => none
+def proto : Finalizer := ⟨600000000000, none, "Authorization", "Bearer"⟩          -- `ttl: 10m`
+def variant : Finalizer := ⟨30000000000, none, "Authorization", "Bearer"⟩          -- `WithConfig(ttl: 30s)`
+def alice : Subject := ⟨"alice", "{\"role\":\"user\"}"⟩
+def bob : Subject := ⟨"bob", "{}"⟩
+def world0 : World Nat := ⟨[⟨"", "heimdall", st1⟩], []⟩
+/-- `Execute` at second `sec` (all three clock readings) -/
+def at_ (sec : Int) (f : Finalizer) (sub : Subject) : Exec :=
+  ⟨0, f, sub, "{}", sec * 1000000000, sec * 1000000000, sec * 1000000000⟩
+/-- a key store file that makes `k2` under id `b` the active key, and one that restores `st1` -/
+def fileB : File := some [⟨"b", k2, [], true, true⟩]
+def fileA : File := some [⟨"a", k1, [], true, true⟩]
+
+/-- the prototype serves alice at second 0; then the variant serves her at second 1 -/
+def h1 : List Event := [.exec (at_ 0 proto alice)]
+def h2 : List Event := h1 ++ [.exec (at_ 1 variant alice)]
+
+/-- source, key id, `iat`, `exp` of what an execution hands out -/
+structure Seen where
+  src : Source
+  kid : String
+  iat : Option (CVal Nat)
+  exp : Option (CVal Nat)
+deriving DecidableEq, Repr
+
+def seen (r : Option (Token Nat × Source × World Nat)) : Option Seen :=
+  r.map (fun r => ⟨r.2.1, r.1.kid, lookup "iat" r.1.claims, lookup "exp" r.1.claims⟩)
+
+theorem c16_cache_witness_started : Started world0 := ⟨rfl, by
+  intro s hs
+  simp only [world0, List.mem_singleton] at hs
+  subst hs
+  exact c16_load_consistent "" [⟨"a", k1, [], true, true⟩] st1 (by decide)⟩
+
+theorem c16_cache_witness_delay : DelayBound 0 h2 ∧
+    DelayBound 0 [.exec (at_ 0 proto alice), .reload 0 fileB, .execDuring (at_ 7 variant alice) fileA] := by
+  refine ⟨?_, ?_⟩ <;> intro ev hev x hx <;>
+    simp only [h2, h1, List.cons_append, List.nil_append, List.mem_cons, List.not_mem_nil, or_false] at hev
+  · rcases hev with rfl | rfl <;> cases hx <;> decide
+  · rcases hev with rfl | rfl | rfl <;> cases hx <;> decide
+
+/-- the hypotheses of the theorems above are met by a non-trivial run: after prototype and variant have served alice,
+the prototype's execution at second 20 is answered from the cache, and what it hands out satisfies `Handout` -/
+example : ∃ t w', execute noRender (run noRender world0 h2) (at_ 20 proto alice) = some (t, .cached, w') ∧
+    Handout noRender 0 (run noRender world0 h2) (at_ 20 proto alice) t .cached := by
+  have hs : (execute noRender (run noRender world0 h2) (at_ 20 proto alice)).map (·.2.1) = some .cached := by decide
+  cases hx : execute noRender (run noRender world0 h2) (at_ 20 proto alice) with
+  | none => rw [hx] at hs; cases hs
+  | some r =>
+    obtain ⟨t, src, w'⟩ := r
+    rw [hx] at hs
+    simp only [Option.map_some, Option.some.injEq] at hs
+    subst hs
+    exact ⟨t, w', rfl, c16_cache_handout noRender 0 world0 c16_cache_witness_started h2 c16_cache_witness_delay.1 _
+      (by decide) t .cached w' hx⟩
+
+/-- prototype (10 m) and variant (30 s) serve the same subject one after the other: the variant does **not** hand
+out the prototype's token (its own: `exp − iat` = 30); repeated within `ttl − leeway` both are served from the cache,
+each its own token; the variant again after 26 s (lifetime 25 s): a fresh token; another subject: a fresh token -/
+example :
+    seen (execute noRender (run noRender world0 h1) (at_ 1 variant alice)) = some ⟨.fresh, "a", some (.num 1), some (.num 31)⟩ ∧
+    seen (execute noRender (run noRender world0 h2) (at_ 20 proto alice)) = some ⟨.cached, "a", some (.num 0), some (.num 600)⟩ ∧
+    seen (execute noRender (run noRender world0 h2) (at_ 26 variant alice)) = some ⟨.cached, "a", some (.num 1), some (.num 31)⟩ ∧
+    seen (execute noRender (run noRender world0 h2) (at_ 27 variant alice)) = some ⟨.fresh, "a", some (.num 27), some (.num 57)⟩ ∧
+    seen (execute noRender (run noRender world0 h2) (at_ 2 proto bob)) = some ⟨.fresh, "a", some (.num 2), some (.num 602)⟩ := by
+  decide
+
+/-- across reloads: after a reload to another key the cached token is not served (fresh token under the new key);
+a failed reload changes nothing (still cached); after a reload that restores the first key the first token is served
+again — it names the key that is active again — as long as it is in the cache -/
+example :
+    seen (execute noRender (run noRender world0 (h1 ++ [.reload 0 fileB])) (at_ 5 proto alice)) = some ⟨.fresh, "b", some (.num 5), some (.num 605)⟩ ∧
+    seen (execute noRender (run noRender world0 (h1 ++ [.reload 0 none])) (at_ 5 proto alice)) = some ⟨.cached, "a", some (.num 0), some (.num 600)⟩ ∧
+    seen (execute noRender (run noRender world0 (h1 ++ [.reload 0 fileB, .exec (at_ 5 proto alice), .reload 0 fileA])) (at_ 9 proto alice))
+      = some ⟨.cached, "a", some (.num 0), some (.num 600)⟩ := by
+  decide
+
+/-- **The negative: the TTL must be part of the key.**  With a key function that does not cover the TTL (`dropTtl`,
+the seeded defect: prototype and variant share entries) the two-step history "prototype `ttl: 10m` serves alice, then
+the variant `ttl: 30s` serves alice" hands out, by the variant, the prototype's token: `exp − iat` is 600 s where the
+variant's TTL is 30 s.  So `c16_cache_claims` fails for that key function; with the real key (`execute`) the same
+history yields `exp − iat` = 30 s. -/
+theorem c16_cache_key_without_ttl_violates :
+    (at_ 1 variant alice).fin.ttlNs = 30 * 1000000000 ∧
+    seen (executeK dropTtl noRender (runK dropTtl noRender world0 h1) (at_ 1 variant alice))
+      = some ⟨.cached, "a", some (.num 0), some (.num 600)⟩ ∧
+    seen (execute noRender (run noRender world0 h1) (at_ 1 variant alice))
+      = some ⟨.fresh, "a", some (.num 1), some (.num 31)⟩ := by
+  decide
+
+/-! ### an execution overlapping a reload of its signer's key store
+
+`Execute` reads the signer twice: `Hash` for the cache key, then `Sign`.  A reload may commit in between
+(`Event.execDuring`).  The theorems above hold for histories containing such executions because the token is stored
+under the key of the signer state that signed it (`signAndHash`; fixes/C16-1.patch — see `design/C16.md`). -/
+
+/-- what an execution overlapping a reload hands out: a cached token is a token for this execution in the world before
+the reload (it names the key that was active when the request looked it up), a fresh one in the world after it (signed
+by the new generation); after any history, including earlier overlapping executions -/
+theorem c16_cache_handout_during_reload (render : Render α) (d : Int) (w0 : World α) (h0 : Started w0)
+    (hist : List Event) (hd : DelayBound d hist) (x : Exec) (f : File) (hx : x.setNs ≤ x.signNs + d) (t : Token α)
+    (src : Source) (w' : World α) (h : executeDuring render (run render w0 hist) x f = some (t, src, w')) :
+    (src = .cached → Handout render d (run render w0 hist) x t src) ∧
+    (src = .fresh → Handout render d (reloadAt (run render w0 hist) x.signer f) x t src) := by
+  have hinv0 : CacheInv render d w0 := ⟨h0.signers, by rw [h0.empty]; intro e he; cases he⟩
+  have := executeDuring_spec render d _ (run_inv render d w0 hinv0 hist hd) x f hx t src w' h
+  exact ⟨this.1, this.2.1⟩
+
+/-- **Why the token has to be stored under the key of the state that signed it.**  With the key calculated for the
+lookup (`lookupKey`, the code before fixes/C16-1): alice is served while the key store is rotated from key `a` to key
+`b` (the token is signed by `b`, stored under the hash of `a`); the rotation is rolled back; alice's next request is
+answered from the cache with a token naming `b` while `a` is active and `b` is not published any more — contradicting
+`c16_cache_token_names_current_key` and `c16_cache_token_verifies_now`.  With the fixed policy the same history
+yields a fresh token naming `a`. -/
+theorem c16_cache_lookup_key_violates_across_reload :
+    let hist := [Event.execDuring (at_ 0 proto alice) fileB, .reload 0 fileA]
+    seen (executeK lookupKey noRender (runK lookupKey noRender world0 hist) (at_ 1 proto alice))
+      = some ⟨.cached, "b", some (.num 0), some (.num 600)⟩ ∧
+    ((runK lookupKey noRender world0 hist).signers.map (fun s => (s.st.jwk.kid, s.st.pubKeys.map (·.kid)))) = [("a", ["a"])] ∧
+    seen (execute noRender (run noRender world0 hist) (at_ 1 proto alice))
+      = some ⟨.fresh, "a", some (.num 1), some (.num 601)⟩ := by
+  decide
+
+/-- witnesses: an overlapping execution that signs (fresh, under the new key `b`) and one that is answered from the
+cache (the prototype's token of second 0, naming `a`, while the store moves on to `b`) -/
+example :
+    seen (executeDuring noRender (run noRender world0 h1) (at_ 3 variant alice) fileB)
+      = some ⟨.fresh, "b", some (.num 3), some (.num 33)⟩ ∧
+    seen (executeDuring noRender (run noRender world0 h1) (at_ 3 proto alice) fileB)
+      = some ⟨.cached, "a", some (.num 0), some (.num 600)⟩ := by
+  decide
 
 end Heimdall.Props.C16
